@@ -123,7 +123,7 @@ def run(c):
             trace = os.path.join(wd, "%s-%s.ndjson" % (driver, build))
             vlib.run_harness(binary, [driver, "--seed", str(c.seed)] + args, out=trace)
             # large (thorough) traces are validated in shards cut at episode boundaries
-            for shard, first, cnt in vlib.split_trace(trace, max_events=60000):
+            for shard, first, cnt in vlib.split_trace(trace, max_events=40000):
                 recs, eps, r, _ = vlib.validate_episodes(c, "TraceHashBuf", shard, _describe(build), _canary, "%s (%s)" % (driver, build), workers=12, timeout=6000)
                 if "REFMISMATCH" in r["out"]:
                     raise vlib.ToolError("harness reference bookkeeping disagrees with the monitor's ghost message (harness bug)")
